@@ -230,6 +230,9 @@ def harnesses():
     for n in (0, 1, 2, 3):
         hs.append(Harness(f"DecoratorManager.start[{n}]", h_dm_start(n), units=[(DA_PY, "DecoratorManager.start"), (DA_PY, "DecoratorManager._stop_decorator"), (DA_PY, "DecoratorManager.update_status")]))
         hs.append(Harness(f"DecoratorManager.stop[{n}]", h_dm_stop(n), units=[(DA_PY, "DecoratorManager.stop"), (DA_PY, "DecoratorManager._stop_decorator"), (DA_PY, "DecoratorManager.update_status")]))
+        if n:
+            hs.append(Harness(f"DecoratorManager.start||stop[{n}]", h_dm_start_stopped_meanwhile(n), replay=replay_dm_interleaved,
+                              units=[(DA_PY, "DecoratorManager.start"), (DA_PY, "DecoratorManager.stop"), (DA_PY, "DecoratorManager.update_status")]))
     for nf, nd in ((0, 0), (1, 1), (2, 2)):
         hs.append(Harness(f"GlobalContext.stop[{nf},{nd}]", h_gc_stop(nf, nd), units=[(GC_PY, "GlobalContext.stop")]))
     for nt in (0, 2):
@@ -495,6 +498,53 @@ def h_dm_start(n):
             eng.oblige(f"{U}/rollback.status-invalid", dm._fields["status"] is M["INVALID"])
         eng.oblige(f"{U}/canary", len(starts) == 0, kind="canary") if n else None
     return h
+
+
+def h_dm_start_stopped_meanwhile(n):
+    """The manager is stopped (its function went away, its file is unloaded, a task.wait_until condition fired) while start() is
+    suspended inside the start() of decorator j.  The interleaved stop() is the REAL DecoratorManager.stop, run at that
+    suspension (A-COOP: that is the only place another task can run)."""
+    def h(eng):
+        it = Interpreter(eng)
+        w = World(eng)
+        mod, enum, M = abc_module(eng, it, w)
+        DM = mod.env.vars["DecoratorManager"]
+        decs = mk_decorators(eng, w, n, fail_choice=False)
+        dm = Rec(cls=DM, fields={"status": M["VALIDATED"], "_decorators": list(decs), "name": "file.x.f",
+                                 "logger": logger_stub(), "startup_time": None}, name="dm")
+        j = eng.choose(n, "stopped-while-starting")
+        U = "C09/DecoratorManager.start||stop"
+        plain_start = decs[j]._fields["start"]
+        inner = {}
+
+        def start_j(interp):
+            def th():
+                w.emit("start", j)
+                # suspended here: another task stops the manager
+                k2, v2 = run_catching(interp, lambda: interp.await_(interp.call(interp.getattr_(dm, "stop"), [], {})))
+                inner["stop"] = k2
+                inner["starts_at_stop"] = len(w.events("start"))
+            return Coro(th, f"dec{j}.start")
+        decs[j]._fields["start"] = start_j
+        kind, val = run_catching(it, lambda: it.await_(it.call(it.getattr_(dm, "start"), [], {})))
+        eng.cover(f"exit:{kind}:{j}")
+        starts = [e[1] for e in w.events("start")]
+        stops = [e[1] for e in w.events("stop")]
+        eng.oblige(f"{U}/post.no-exception", kind == "ok" and inner.get("stop") == "ok")
+        ob = eng.oblige(f"{U}/post.nothing-is-started-after-the-manager-was-stopped", starts == list(range(j + 1)))
+        if ob.status == "refuted":
+            ob.witness = {"signature": "decorator-started-on-a-stopped-manager", "what": "start-after-stop"}
+        ob = eng.oblige(f"{U}/post.every-decorator-whose-start-began-is-stopped-once", all(stops.count(i) == 1 for i in range(j + 1)) and all(stops.count(i) <= 1 for i in range(n)))
+        if ob.status == "refuted":
+            ob.witness = {"signature": "decorator-in-mid-start-not-stopped", "what": "mid-start-not-stopped"}
+        eng.oblige(f"{U}/post.status-stopped", dm._fields["status"] is M["STOPPED"])
+        eng.oblige(f"{U}/post.decorators-dropped", dm._fields["_decorators"] == [])
+    return h
+
+
+def replay_dm_interleaved(wj):
+    from replay.native import run_native
+    return run_native("c09_dm_stop_during_start", wj, timeout=120)
 
 
 def h_dm_stop(n):
